@@ -1002,10 +1002,12 @@ def _start2(N1z, N2z, w): return If(lang_b(N1z, w), _E2(N2z, single(rec_get(_n2(
 axiom('nfax', 'def', 'Bcat-nil', ForAll([_N1, _N2], Bcat(_N1, _N2, Word.nil) == _start2(_N1, _N2, Word.nil)))
 axiom('nfax', 'def', 'Bcat-snoc', ForAll([_N1, _N2, _w, _a], Bcat(_N1, _N2, Word.snoc(_w, _a)) ==
       U(If(Select(rec_get(_n2(_N2), 'Sigma').z, _a), _E2(_N2, move(nfa_view(_n2(_N2)), Bcat(_N1, _N2, _w), _a)), EMPTYA), _start2(_N1, _N2, Word.snoc(_w, _a)))))
+hitF = Function('hits_F', _NFAs, SetA, BoolSort())          # the set S contains an accepting state of N (named, so that equal conditions are equal terms)
+axiom('nfax', 'def', 'hits_F-def', ForAll([_N1, _S], hitF(_N1, _S) == z3.Exists([_x], And(Select(rec_get(SV(REC('NFA'), _N1), 'F').z, _x), Select(_S, _x)))))
 def _cat_eclo():
     N1, N2, R = [SV(REC('NFA'), z_) for z_ in (_N1, _N2, _NR)]
     E1 = Eclo(nfa_view(N1), _eps(N1), _S)
-    hit = z3.Exists([_x], And(Select(rec_get(N1, 'F').z, _x), Select(E1, _x)))
+    hit = hitF(_N1, E1)
     return ForAll([_N1, _N2, _NR, _S], Implies(And(cat_b(_N1, _N2, _NR), _sub(_S, rec_get(N1, 'Q').z)),
                   Eclo(nfa_view(R), _eps(N1), _S) == U(E1, If(hit, _E2(_N2, single(rec_get(N2, 'q0').z)), EMPTYA))),
                   patterns=[z3.MultiPattern(cat_b(_N1, _N2, _NR), Eclo(nfa_view(R), _eps(N1), _S))])
@@ -1034,3 +1036,61 @@ def s_cat_struct(ev, N1, N2, R): return SV(BOOL, cat_b(N1.z, N2.z, R.z))
 def s_nfa_lang(ev, N, w): return SV(BOOL, lang_b(N.z, w.z))
 @spec('nfa_acc')
 def s_nfa_acc(ev, N, w): return SV(BOOL, acc_b(N.z, w.z))
+
+
+# ---------------------------------------------------------------------- star (theory nfastar: needs the language algebra of the regexp theory)
+NL = Function('NL', _NFAs, Lang)          # the language of an NFA as an element of the language algebra: the words over its alphabet that it accepts
+axiom('nfastar', 'def', 'NL-def (comprehension)', ForAll([_N1, _w], lmem(_w, NL(_N1)) == lang_b(_N1, _w)))
+axiom('nfastar', KA, 'Language.mem_kstar, unfolding on the right with a non-empty last block (from one_add_kstar_mul_self_eq_kstar)',
+      ForAll([_w, _X], lmem(_w, lstar(_X)) == Or(_w == Word.nil, z3.Exists([_k], And(0 <= _k, _k < wlen(_w), lmem(take(_k, _w), lstar(_X)), lmem(drop(_k, _w), _X))))))
+
+
+def star_struct(N, R):
+    """R has the structure nfa_repetition gives"""
+    VN, VR = nfa_view(N), nfa_view(R); e = _eps(N); r0 = rec_get(R, 'q0').z; Q = rec_get(N, 'Q').z
+    q, b, y = fresh_z('q', Atom), fresh_z('b', Atom), fresh_z('y', Atom)
+    return And(s_nfa_wf(None, N).z, _eps(R) == e, Not(Select(Q, r0)), rec_get(R, 'Sigma').z == rec_get(N, 'Sigma').z,
+               ForAll([q], Select(rec_get(R, 'F').z, q) == Or(Select(rec_get(N, 'F').z, q), q == r0)),
+               ForAll([y], Select(Select(VR, mkKey2(r0, e)), y) == (y == rec_get(N, 'q0').z)),
+               ForAll([b, y], Implies(b != e, Not(Select(Select(VR, mkKey2(r0, b)), y)))),
+               ForAll([q, b, y], Implies(Select(Q, q), Select(Select(VR, mkKey2(q, b)), y) == Or(Select(Select(VN, mkKey2(q, b)), y), And(b == e, Select(rec_get(N, 'F').z, q), y == rec_get(N, 'q0').z)))))
+
+
+star_b = Function('star_struct', _NFAs, _NFAs, BoolSort())
+axiom('nfastar', 'def', 'star_struct-def', ForAll([_N1, _NR], star_b(_N1, _NR) == star_struct(SV(REC('NFA'), _N1), SV(REC('NFA'), _NR))))
+Sstar = Function('Sstar', _NFAs, Word, SetA)      # the states of N that the star automaton can be in after reading w: by recursion on w
+def _EN(Nz, S): return Eclo(nfa_view(_n2(Nz)), _eps(_n2(Nz)), S)
+def _hit(Nz, S): return hitF(Nz, S)
+def _s0(Nz): return single(rec_get(_n2(Nz), 'q0').z)
+def _again(Nz, S): return U(S, If(_hit(Nz, S), _EN(Nz, _s0(Nz)), EMPTYA))
+axiom('nfastar', 'def', 'Sstar-nil', ForAll([_N1], Sstar(_N1, Word.nil) == _EN(_N1, _s0(_N1))))
+axiom('nfastar', 'def', 'Sstar-snoc', ForAll([_N1, _w, _a], Sstar(_N1, Word.snoc(_w, _a)) ==
+      If(Select(rec_get(_n2(_N1), 'Sigma').z, _a), _again(_N1, _EN(_N1, move(nfa_view(_n2(_N1)), Sstar(_N1, _w), _a))), EMPTYA)))
+def _star_eclo():
+    N, R = SV(REC('NFA'), _N1), SV(REC('NFA'), _NR)
+    return ForAll([_N1, _NR, _S], Implies(And(star_b(_N1, _NR), _sub(_S, rec_get(N, 'Q').z)), Eclo(nfa_view(R), _eps(N), _S) == _again(_N1, _EN(_N1, _S))),
+                  patterns=[z3.MultiPattern(star_b(_N1, _NR), Eclo(nfa_view(R), _eps(N), _S))])
+axiom('nfastar', 'lemma', 'star-eclo', _star_eclo())
+def starL(Nz, u): return lmem(u, lstar(NL(Nz)))
+def _sstar_char():
+    N = _n2(_N1); k = _k
+    return ForAll([_N1, _w, _x], Implies(s_nfa_wf(None, N).z, Select(Sstar(_N1, _w), _x) == z3.Exists([k], And(0 <= k, k <= wlen(_w), starL(_N1, take(k, _w)), over(rec_get(N, 'Sigma').z, drop(k, _w)),
+                  Select(NS(nfa_view(N), _eps(N), _s0(_N1), drop(k, _w)), _x)))))
+axiom('nfastar', 'lemma', 'Sstar-char', _sstar_char())
+def _star_sim():
+    N, R = SV(REC('NFA'), _N1), SV(REC('NFA'), _NR)
+    return ForAll([_N1, _NR, _w], Implies(And(star_b(_N1, _NR), over(rec_get(N, 'Sigma').z, _w)),
+                  NS(nfa_view(R), _eps(N), single(rec_get(R, 'q0').z), _w) == U(If(_w == Word.nil, single(rec_get(R, 'q0').z), EMPTYA), Sstar(_N1, _w))))
+axiom('nfastar', 'lemma', 'star-sim', _star_sim())
+def _star_lang():
+    N = SV(REC('NFA'), _N1)
+    return ForAll([_N1, _NR, _w], Implies(And(star_b(_N1, _NR), over(rec_get(N, 'Sigma').z, _w)), acc_b(_NR, _w) == starL(_N1, _w)))
+axiom('nfastar', 'lemma', 'star-lang', _star_lang())
+
+
+@spec('star_struct')
+def s_star_struct(ev, N, R): return SV(BOOL, star_b(N.z, R.z))
+@spec('NL')
+def s_NL(ev, N): return SV(Ty('lang'), NL(N.z))
+@spec('lstar')
+def s_lstar(ev, X): return SV(Ty('lang'), lstar(X.z))
